@@ -18,6 +18,10 @@ DUMP = '''<?xml version="1.0"?><dump>
   <property name="other-prop" type="gchararray" flags="1"/>
   <signal name="sig-a" return="void" when="last"><param type="gint"/></signal>
   <signal name="sig-a-b" return="void" when="first"></signal>
+</class>
+<class name="FooObjB" get-type="foo_obj_b_get_type" parents="GObject">
+  <property name="prop-a" type="gint" flags="3" default-value="0"/>
+  <signal name="sig-a" return="void" when="last"><param type="gint"/></signal>
 </class></dump>'''
 
 
@@ -37,6 +41,15 @@ def build_namespace(S):
         S.function('foo_obj_other2', 'int', [('FooObj *', 'self')]),
         S.function('foo_obj_emit_sig_a', 'void', [('FooObj *', 'self'), ('int', 'x')]),
         S.function('foo_obj_call_by_ann', 'void', [('FooObj *', 'self'), ('int', 'y')]),
+        # a second class with the SAME virtual-method, property and signal names
+        S.typedef_struct('FooObjB', '_FooObjB'), S.typedef_struct('FooObjBClass', '_FooObjBClass'),
+        S.struct_def('_FooObjB', [('GObject', 'parent_instance')]),
+        S.struct_def('_FooObjBClass', [('GObjectClass', 'parent_class'),
+                                       S.member(fp('int', [('FooObjB *', 'self'), ('int', 'x')]), 'do_thing'),
+                                       S.member(fp('void', [('FooObjB *', 'self'), ('int', 'y')]), 'by_ann')]),
+        S.function('foo_obj_b_get_type', 'GType', []),
+        S.function('foo_obj_b_do_thing', 'int', [('FooObjB *', 'self'), ('int', 'x')]),
+        S.function('foo_obj_b_call_by_ann', 'void', [('FooObjB *', 'self'), ('int', 'y')]),
         S.typedef_struct('FooRec', '_FooRec'), S.struct_def('_FooRec', [('int', 'x'), ('int', 'y'), ('int', 'x_y')]),
         S.typedef_struct('FooRecX', '_FooRecX'), S.struct_def('_FooRecX', [('int', 'x')]),
         S.function('foo_rec_do', 'void', [('FooRec *', 'self')]),
@@ -70,6 +83,13 @@ def build_namespace(S):
         ('method', 'foo_obj_emit_sig_a', [('class', 'name', 'Obj'), ('method', 'c:identifier', 'foo_obj_emit_sig_a')]),
         ('method', 'foo_obj_call_by_ann', [('class', 'name', 'Obj'), ('method', 'c:identifier', 'foo_obj_call_by_ann')]),
         ('record', 'FooObjClass', [('record', 'name', 'ObjClass')]),
+        ('class', 'FooObjB', [('class', 'name', 'ObjB')]),
+        ('property', 'FooObjB:prop-a', [('class', 'name', 'ObjB'), ('property', 'name', 'prop-a')]),
+        ('signal', 'FooObjB::sig-a', [('class', 'name', 'ObjB'), ('glib:signal', 'name', 'sig-a')]),
+        ('vfunc', 'FooObjBClass::do_thing', [('class', 'name', 'ObjB'), ('virtual-method', 'name', 'do_thing')]),
+        ('vfunc', 'FooObjBClass::by_ann', [('class', 'name', 'ObjB'), ('virtual-method', 'name', 'by_ann')]),
+        ('method', 'foo_obj_b_do_thing', [('class', 'name', 'ObjB'), ('method', 'c:identifier', 'foo_obj_b_do_thing')]),
+        ('method', 'foo_obj_b_call_by_ann', [('class', 'name', 'ObjB'), ('method', 'c:identifier', 'foo_obj_b_call_by_ann')]),
         ('record', 'FooRec', [('record', 'name', 'Rec')]),
         ('record', 'FooRecX', [('record', 'name', 'RecX')]),
         ('field', 'FooRec.x', [('record', 'name', 'Rec'), ('field', 'name', 'x')]),
@@ -127,7 +147,7 @@ def make_block(key, kind, pid, rng, full=False):
         b['skip'] = True
         anns.append('(skip)')
     for text, attr, val in TARGETS.get(kind, []):
-        if key in ('FooObj:prop-a-b', 'FooObj:other-prop') or (kind == 'signal' and key != 'FooObj::sig-a') \
+        if key in ('FooObj:prop-a-b', 'FooObj:other-prop', 'FooObjB:prop-a') or (kind == 'signal' and key != 'FooObj::sig-a') \
                 or (kind == 'record' and key != 'FooRec') \
                 or (kind == 'constant' and key == 'FOO_STR'):
             continue
@@ -274,14 +294,16 @@ def run():
         virtual_ann = rng.random() < 0.7
         for pid, key in enumerate(order, 1):
             b, text = make_block(key, kinds.get(key, 'none'), pid + 100 * (n % 50), rng, full=full)
-            if key == 'foo_obj_call_by_ann' and virtual_ann:
+            if key in ('foo_obj_call_by_ann', 'foo_obj_b_call_by_ann') and virtual_ann:
                 text = text.replace(' * %s:' % key, ' * %s: (virtual by_ann)' % key, 1)
             blocks.append(b)
             comments.append((text, '/src/foo.c', line))
             line += 20
-        if virtual_ann and 'foo_obj_call_by_ann' not in chosen:
-            comments.append(('/**\n * foo_obj_call_by_ann: (virtual by_ann)\n */', '/src/foo.c', line))
-            blocks.append(dict(key='foo_obj_call_by_ann', doc='', since='', depver='', deptext='', stab='', attrs=[], skip=False, targets=[]))
+        for meth in ('foo_obj_call_by_ann', 'foo_obj_b_call_by_ann'):
+            if virtual_ann and meth not in chosen:
+                line += 20
+                comments.append(('/**\n * %s: (virtual by_ann)\n */' % meth, '/src/foo.c', line))
+                blocks.append(dict(key=meth, doc='', since='', depver='', deptext='', stab='', attrs=[], skip=False, targets=[]))
         r = S.scan(syms, comments, dump_xml=DUMP)
         ns = S.namespace_of(S.girabs(r.xml))
         for kind, key, path in els:
@@ -290,7 +312,7 @@ def run():
                 continue           # e.g. skipped parents are still emitted; absent elements are C04's business
             inv = '-'
             if kind == 'vfunc' and node['attrs'].get('invoker'):
-                inv = 'foo_obj_' + node['attrs']['invoker']
+                inv = ('foo_obj_b_' if key.startswith('FooObjB') else 'foo_obj_') + node['attrs']['invoker']
             oid = 'node-%d-%s' % (n, key)
             o = dict(id=oid, kind='node', nkind=kind, key=key, invKey=inv, blocks=blocks, out=project(S, node))
             o.update(RN)
